@@ -3,9 +3,8 @@ import PydraModel.StateAlg.Model
 StateAlg helper lemmas, part 1 (model side only):
   * the binary normal form `Bin` of a splitter (`normalize`: one-element nodes unwrapped, n-ary nodes nested to the left,
     exactly what `_ordering` emits) and `toRPN s = (normalize s).rpn`
-  * compiler correctness: the stack machine `State.splits` run on `t.rpn` = the tree evaluation `evalBin t`, with the
-    global `keys` list evolving as `evKeys t`
-  * `keysOK`: the syntactic condition under which `keys` ends up aligned with the index tuples, and its proof for ≤ 4 fields
+  * compiler correctness: the stack machine `State.splits` run on `t.rpn` = the tree evaluation `evalBin t`, every
+    processed term carrying the fields of its subtree (after the repair of D1 no side condition on the tree is needed)
 -/
 namespace PydraModel.StateAlg
 
@@ -191,10 +190,10 @@ def opVal (d : Bool) (shL : List Nat) (indL : List (List Nat)) (shR : List Nat) 
     if shL ≠ shR then .error .shape else .ok (zipRows indL indR, shR)
   else .ok (prodRows indL indR, shL ++ shR)
 
-theorem pushVal_eq (d : Bool) (shL indL shR indR) :
-    pushVal d shL indL shR indR =
+theorem pushVal_eq (d : Bool) (shL indL shR indR) (keys : List Name) :
+    pushVal d shL indL shR indR keys =
       match opVal d shL indL shR indR with
-      | .ok v => .ok (.done v.1 v.2)
+      | .ok v => .ok (.done v.1 v.2 keys)
       | .error e => .error e := by
   unfold pushVal opVal
   cases d <;> simp
@@ -211,23 +210,19 @@ def evalBin (env : ShapeEnv) : Bin → Except Err (List (List Nat) × List Nat)
       | .error e => .error e
       | .ok vr => opVal d vl.2 vl.1 vr.2 vr.1
 
-/-- how the global `keys` list changes while the tokens of a subtree are processed -/
-def evKeys : Bin → List Name → List Name
-  | .leaf _, K => K
-  | .node _ (.leaf x) (.leaf y), K => K ++ [x] ++ [y]
-  | .node _ (.leaf x) (.node d l r), K => [x] ++ evKeys (.node d l r) K
-  | .node _ (.node d l r) (.leaf y), K => evKeys (.node d l r) K ++ [y]
-  | .node _ (.node d l r) (.node d' l' r'), K => evKeys (.node d' l' r') (evKeys (.node d l r) K)
-
-/-- what a finished subtree leaves on the stack -/
+/-- what a finished subtree leaves on the stack: a processed term carries the fields of the subtree, left to right -/
 def itemOf (b : Bin) (v : List (List Nat) × List Nat) : Item :=
   match b with
   | .leaf n => .raw n
-  | .node .. => .done v.1 v.2
+  | .node .. => .done v.1 v.2 b.fields
+
+/-- the variable `keys` after the tokens of a subtree: the names of the last operation -/
+def keysAfter (b : Bin) (K : List Name) : List Name :=
+  match b with
+  | .leaf _ => K
+  | .node .. => b.fields
 
 theorem tokOf_ne_f (d : Bool) (n : Name) : tokOf d ≠ .f n := by cases d <;> simp [tokOf]
-
-theorem tokOf_dot (d : Bool) : (tokOf d == Tok.dot) = d := by cases d <;> simp [tokOf] <;> decide
 
 @[simp] theorem star_beq_dot : (Tok.star == Tok.dot) = false := by decide
 @[simp] theorem dot_beq_dot : (Tok.dot == Tok.dot) = true := by decide
@@ -237,48 +232,38 @@ theorem runToks_append_single (env : ShapeEnv) (m : M) (t : Tok) (ts : List Tok)
       | .ok m' => runToks env m' ts
       | .error e => .error e := rfl
 
+theorem unpack_itemOf (env : ShapeEnv) (b : Bin) (v : List (List Nat) × List Nat) (h : evalBin env b = .ok v) :
+    unpack env (itemOf b v) = (v.2, v.1, b.fields) := by
+  cases b with
+  | leaf n =>
+    simp only [evalBin, Except.ok.injEq] at h
+    subst h
+    simp [itemOf, unpack, processingTerms, Bin.fields]
+  | node d l r => simp [itemOf, unpack]
+
 /-- the machine step on an operator token when the two top entries come from subtrees `l`, `r` -/
 theorem step_op (env : ShapeEnv) (d : Bool) (l r : Bin) (vl vr : List (List Nat) × List Nat)
     (hl : evalBin env l = .ok vl) (hr : evalBin env r = .ok vr) (st : List Item) (K : List Name) :
-    splitsStep env ⟨itemOf r vr :: itemOf l vl :: st, evKeys r (evKeys l K)⟩ (tokOf d) =
+    splitsStep env ⟨itemOf r vr :: itemOf l vl :: st, K⟩ (tokOf d) =
       match opVal d vl.2 vl.1 vr.2 vr.1 with
-      | .ok v => .ok ⟨.done v.1 v.2 :: st, evKeys (.node d l r) K⟩
+      | .ok v => .ok ⟨.done v.1 v.2 (l.fields ++ r.fields) :: st, l.fields ++ r.fields⟩
       | .error e => .error e := by
-  cases l with
-  | leaf x =>
-    cases r with
-    | leaf y =>
-      simp only [evalBin, Except.ok.injEq] at hl hr
-      subst hl; subst hr
-      cases ho : opVal d (env x) (rawRows (env x)) (env y) (rawRows (env y)) <;>
-        cases d <;> simp [splitsStep, tokOf, itemOf, evKeys, processingTerms, pushVal_eq, ho]
-    | node d2 l2 r2 =>
-      simp only [evalBin, Except.ok.injEq] at hl
-      subst hl
-      cases ho : opVal d (env x) (rawRows (env x)) vr.2 vr.1 <;>
-        cases d <;> simp [splitsStep, tokOf, itemOf, evKeys, processingTerms, pushVal_eq, ho]
-  | node d1 l1 r1 =>
-    cases r with
-    | leaf y =>
-      simp only [evalBin, Except.ok.injEq] at hr
-      subst hr
-      cases ho : opVal d vl.2 vl.1 (env y) (rawRows (env y)) <;>
-        cases d <;> simp [splitsStep, tokOf, itemOf, evKeys, processingTerms, pushVal_eq, ho]
-    | node d2 l2 r2 =>
-      cases ho : opVal d vl.2 vl.1 vr.2 vr.1 <;>
-        cases d <;> simp [splitsStep, tokOf, itemOf, evKeys, pushVal_eq, ho]
+  have ul := unpack_itemOf env l vl hl
+  have ur := unpack_itemOf env r vr hr
+  cases ho : opVal d vl.2 vl.1 vr.2 vr.1 <;>
+    cases d <;> simp [splitsStep, tokOf, ul, ur, pushVal_eq, ho]
 
 /-- Compiler correctness: running the tokens of a subtree = evaluating the subtree. -/
 theorem run_rpn (env : ShapeEnv) : ∀ (b : Bin) (st : List Item) (K : List Name) (rest : List Tok),
     runToks env ⟨st, K⟩ (b.rpn ++ rest) =
       match evalBin env b with
       | .error e => .error e
-      | .ok v => runToks env ⟨itemOf b v :: st, evKeys b K⟩ rest := by
+      | .ok v => runToks env ⟨itemOf b v :: st, keysAfter b K⟩ rest := by
   intro b
   induction b with
   | leaf n =>
     intro st K rest
-    simp [Bin.rpn, runToks, splitsStep, evalBin, itemOf, evKeys]
+    simp [Bin.rpn, runToks, splitsStep, evalBin, itemOf, keysAfter]
   | node d l r ihl ihr =>
     intro st K rest
     have e1 : (Bin.node d l r).rpn ++ rest = l.rpn ++ (r.rpn ++ (tokOf d :: rest)) := by simp [Bin.rpn]
@@ -296,7 +281,7 @@ theorem run_rpn (env : ShapeEnv) : ∀ (b : Bin) (st : List Item) (K : List Name
         simp only [evalBin, hl, hr]
         cases opVal d vl.2 vl.1 vr.2 vr.1 with
         | error e => rfl
-        | ok v => simp [itemOf]
+        | ok v => simp [itemOf, keysAfter, Bin.fields]
 
 theorem rpn_ne_nil (b : Bin) : b.rpn ≠ [] := by
   cases b <;> simp [Bin.rpn]
@@ -312,20 +297,21 @@ theorem splits_long (env : ShapeEnv) (rpn : List Tok) (h : 2 ≤ rpn.length) :
       | .error e => .error e
       | .ok m =>
         match m.stack with
-        | .done rows _ :: _ => .ok (rows, m.keys)
+        | .done rows _ _ :: _ => .ok (rows, m.keys)
         | .raw _ :: _ => .error .malformed
         | [] => .error .stack := by
   match rpn, h with
   | x :: y :: zs, _ => cases x <;> rfl
 
-/-- `State.splits` on the RPN of a tree. -/
+/-- `State.splits` on the RPN of ANY tree: the rows of the tree evaluation, labelled with the fields left to right
+    (no condition on the tree: every processed term carries its own keys). -/
 theorem splits_rpn (env : ShapeEnv) (b : Bin) :
     splits env b.rpn =
       match evalBin env b with
       | .error e => .error e
-      | .ok v => .ok (v.1, match b with | .leaf n => [n] | .node .. => evKeys b []) := by
+      | .ok v => .ok (v.1, b.fields) := by
   cases b with
-  | leaf n => simp [Bin.rpn, splits, evalBin]
+  | leaf n => simp [Bin.rpn, splits, evalBin, Bin.fields]
   | node d l r =>
     rw [splits_long env _ (by have := rpn_node_length d l r; omega)]
     have := run_rpn env (.node d l r) [] [] []
@@ -333,100 +319,12 @@ theorem splits_rpn (env : ShapeEnv) (b : Bin) :
     rw [this]
     cases evalBin env (.node d l r) with
     | error e => rfl
-    | ok v => simp [runToks, itemOf]
-
-/-! ### when do the keys stay aligned? -/
-
-/-- `keysOK clean t`: processing `t` when `keys` is empty (`clean`) or may be non-empty keeps `keys` equal to the fields
-    in left-to-right order.  The only harmful step is `keys = new_keys_L + keys` (left operand a field, right operand a
-    processed term) executed when `keys` already holds fields of an earlier subtree. -/
-def keysOK : Bool → Bin → Bool
-  | _, .leaf _ => true
-  | _, .node _ (.leaf _) (.leaf _) => true
-  | c, .node _ (.leaf _) (.node d l r) => c && keysOK c (.node d l r)
-  | c, .node _ (.node d l r) (.leaf _) => keysOK c (.node d l r)
-  | c, .node _ (.node d l r) (.node d' l' r') => keysOK c (.node d l r) && keysOK false (.node d' l' r')
-
-theorem evKeys_aligned : ∀ (b : Bin) (c : Bool) (K : List Name), keysOK c b = true → (c = true → K = []) →
-    evKeys b K = K ++ (match b with | .leaf _ => [] | .node .. => b.fields) := by
-  intro b
-  induction b with
-  | leaf n => intro c K _ _; simp [evKeys]
-  | node d l r ihl ihr =>
-    intro c K hk hc
-    cases l with
-    | leaf x =>
-      cases r with
-      | leaf y => simp [evKeys, Bin.fields]
-      | node d2 l2 r2 =>
-        simp only [keysOK, Bool.and_eq_true] at hk
-        have hK : K = [] := hc hk.1
-        subst hK
-        have := ihr c [] hk.2 (fun _ => rfl)
-        simp only [evKeys, this]
-        simp [Bin.fields]
-    | node d1 l1 r1 =>
-      cases r with
-      | leaf y =>
-        simp only [keysOK] at hk
-        have := ihl c K hk hc
-        simp only [evKeys, this]
-        simp [Bin.fields]
-      | node d2 l2 r2 =>
-        simp only [keysOK, Bool.and_eq_true] at hk
-        have h1 := ihl c K hk.1 hc
-        have h2 := ihr false (evKeys (.node d1 l1 r1) K) hk.2 (fun h => by cases h)
-        simp only [evKeys]
-        rw [h2, h1]
-        simp [Bin.fields]
+    | ok v => simp [runToks, itemOf, keysAfter]
 
 theorem nleaves_pos (b : Bin) : 1 ≤ b.nleaves := by
   induction b with
   | leaf n => simp [Bin.nleaves]
   | node d l r ihl ihr => simp only [Bin.nleaves]; omega
-
-theorem keysOK_le2 : ∀ (b : Bin) (c : Bool), b.nleaves ≤ 2 → keysOK c b = true := by
-  intro b c h
-  cases b with
-  | leaf n => simp [keysOK]
-  | node d l r =>
-    cases l with
-    | leaf x =>
-      cases r with
-      | leaf y => simp [keysOK]
-      | node d2 l2 r2 =>
-        have h1 := nleaves_pos l2; have h2 := nleaves_pos r2
-        simp only [Bin.nleaves] at h; omega
-    | node d1 l1 r1 =>
-      have h1 := nleaves_pos l1; have h2 := nleaves_pos r1; have h3 := nleaves_pos r
-      simp only [Bin.nleaves] at h; omega
-
-theorem keysOK_le4 : ∀ (b : Bin), b.nleaves ≤ 4 → keysOK true b = true := by
-  intro b
-  induction b with
-  | leaf n => intro _; simp [keysOK]
-  | node d l r ihl ihr =>
-    intro h
-    have hl := nleaves_pos l
-    have hr := nleaves_pos r
-    simp only [Bin.nleaves] at h
-    cases l with
-    | leaf x =>
-      cases r with
-      | leaf y => simp [keysOK]
-      | node d2 l2 r2 =>
-        simp only [keysOK, Bool.true_and]
-        exact ihr (by simp only [Bin.nleaves] at h ⊢; omega)
-    | node d1 l1 r1 =>
-      cases r with
-      | leaf y =>
-        simp only [keysOK]
-        exact ihl (by simp only [Bin.nleaves] at h ⊢; omega)
-      | node d2 l2 r2 =>
-        simp only [keysOK, Bool.and_eq_true]
-        have h1 := nleaves_pos l1; have h2 := nleaves_pos r1
-        have h3 := nleaves_pos l2; have h4 := nleaves_pos r2
-        refine ⟨ihl (by simp only [Bin.nleaves] at h ⊢; omega), keysOK_le2 _ _ (by simp only [Bin.nleaves] at h ⊢; omega)⟩
 
 theorem nleaves_eq_fields (b : Bin) : b.nleaves = b.fields.length := by
   induction b with
